@@ -180,7 +180,17 @@ func (p LitPat) Match(l Lit) bool {
 type Gate struct {
 	Lits   []LitPat
 	Instrs []*regexp.Regexp
+	Flags  []FlagPat
 	Text   string
+}
+
+// FlagPat: "+none:<lit>" / "-none:<lit>" — the edge on which a *none-flag* for <lit> is true / false. A none-flag is a
+// boolean that is true exactly when no element of a loop took the edge <lit>; it may be realised as a loop flag
+// (ok := true; for … { if bad { ok = false } }) or as a private helper that returns false on the first such element
+// (World.isNoneFlag).
+type FlagPat struct {
+	Pol bool
+	Lit LitPat
 }
 
 // G parses alternatives: G("+a == nil", "-b") is the disjunction (either edge gates).
@@ -189,6 +199,10 @@ func G(alts ...string) Gate {
 	for _, a := range alts {
 		if strings.HasPrefix(a, "instr:") {
 			g.Instrs = append(g.Instrs, regexp.MustCompile(a[len("instr:"):]))
+			continue
+		}
+		if strings.HasPrefix(a, "+none:") || strings.HasPrefix(a, "-none:") {
+			g.Flags = append(g.Flags, FlagPat{Pol: a[0] == '+', Lit: MustLitPat(a[len("+none:"):])})
 			continue
 		}
 		g.Lits = append(g.Lits, MustLitPat(a))
